@@ -12,22 +12,30 @@ TECHNIQUE = ("Coq proof: induction over the spike history of a per-synapse model
              "trace kernels (geometric-trace lemma, pair-sum identities), tied to the code by translation of the kernels and "
              "by differential correspondence with the real trainers on real layers; literal double sum over spike pairs as "
              "direct oracle")
-LEVEL_TEXT = ("Machine-checked proof (Coq, real-number instance) that, for EVERY pre/post spike history, delay (on the step "
-              "grid, both trainer modes), sign mode and trace mode, the total weight change of the per-synapse model of STDP / "
-              "StableSTDP equals the documented sum over spike pairs (all pairs in cumulative mode, most recent partner in "
-              "nearest mode, presynaptic times shifted by the delay); MSTDP scales each step's pair contribution by that "
-              "step's signal and |scale|; MSTDPET applies the signal to the contribution stream filtered by "
-              "z' = z*exp(-dt/tau_z) + c/tau_z; the triplet trainers multiply each pair term by (alpha + sgn(alpha)|beta| * "
-              "slow trace one step earlier)/alpha; sum / mean batch reductions combine per-sample sums. The theorems are "
-              "about the generated kernels trace_cumulative / trace_nearest / trace_cumulative_value, so an edit of those "
-              "formulas re-checks them; the hand-written wiring/forward model is tied to the real trainers by running both on "
-              "the same histories (exhaustively for short 1x1 histories).")
-LEVEL_NOTE = ("Trusted: Coq kernel + stdlib real axioms; translator for the trace kernels; hand-written model C08/Stdp.v "
-              "(monitor wiring, read positions, routing, signal split, accumulator) validated by correspondence only; "
-              "RecordTensor ring semantics (C01), time-indexed select (C02), synapse delayed reads (C04/C06) are taken at "
-              "their proved meaning (history list, value k steps back, fill 0). Not proved: floating-point rounding; "
-              "off-grid delays (interpolated views) are outside the model; amax/amin batch reductions and per-sample signals "
-              "with a non-sum reduction are covered by correspondence only; conv cells are not exercised.")
+LEVEL_TEXT = ("Machine-checked proof (Coq, real-number instance) that, for EVERY pre/post spike history, delay on the step grid "
+              "(both trainer modes, which are proved to agree), sign mode and trace mode, the total weight change of the "
+              "per-synapse model of STDP / StableSTDP equals the documented sum over spike pairs (all earlier-or-simultaneous "
+              "partners in cumulative mode, the most recent partner in nearest mode, presynaptic times shifted by the delay); "
+              "MSTDP scales each step's pair contribution by that step's signal and |scale| (scalar signals, and per-sample "
+              "signals with the sum reduction); MSTDPET applies the signal to the contribution stream filtered by "
+              "z' = z*exp(-dt/tau_z) + c/tau_z (closed geometric form also proved); TripletSTDP / StableTripletSTDP multiply "
+              "each pair term by (alpha + sgn(alpha)|beta| * slow trace of the triggering population one step earlier); the "
+              "Stable variants equal the plain ones; with the sum (mean) batch reduction the weight change of a batch is the "
+              "sum (mean) over its samples of the single-sample weight changes. Everything rests on a geometric-trace theorem "
+              "about the GENERATED kernels trace_cumulative / trace_nearest / trace_cumulative_value, so an edit of those "
+              "formulas re-checks the theorems; the hand-written wiring/forward model is tied to the real trainers (real "
+              "Serial layers: dense, direct, lateral and convolutional connections, real DeltaCurrent synapse, scripted post "
+              "neuron) by running both on the same histories, exhaustively for short 1x1 histories.")
+LEVEL_NOTE = ("Trusted: Coq kernel + stdlib real axioms (incl. classic through Req_dec); translator for the trace kernels; "
+              "hand-written model C08/Stdp.v (monitor wiring, read positions, routing, signal split, accumulator) validated by "
+              "correspondence only; RecordTensor ring semantics (C01), time-indexed select (C02), synapse delayed reads "
+              "(C04/C06), unfolding of convolution inputs (C05) are taken at their proved/validated meaning (history list, value "
+              "k steps back, fill 0; the unfolded presynaptic trains are read from the implementation). Not proved: "
+              "floating-point rounding; off-grid delays (interpolated views; there the delayed and the delay-frozen trainer "
+              "modes genuinely differ - continuous vs rounded-up arrival - and neither is modelled); amax batch reduction and "
+              "per-sample signals with a non-sum reduction are covered by correspondence only (no per-sample statement exists "
+              "for them); theorems are per synapse, the sum over the positions sharing a convolution weight is done by the "
+              "harness.")
 HEADER = ("From Coq Require Import List ZArith Bool Floats.\nFrom Inferno Require Import Base.Num Base.NumF C08.Stdp C08.StdpExec.\n"
           "Import ListNotations.\nOpen Scope float_scope.\n")
 IMPL = os.path.join(F.VERIF, "tools", "impl", "c08_impl.py")
@@ -56,23 +64,50 @@ def default_hp(sp=1, sq=-1, rng=None):
 
 
 # ------------------------------------------------------------------ which synapses a connection has
-def synapses(case):
-    """[(o, i, flat index into the weight / parts, delay steps k)]"""
-    n_in, n_out, d = case["n_in"], case["n_out"], case.get("delays")
+def column(arr, j):
+    """[T][B][n] -> [T][B] for element j"""
+    return [[sb[j] for sb in st] for st in arr]
+
+
+def entries(case, impl=None):
+    """the weight entries that are judged: [{label, idx (flat index into the weight / parts), k (delay steps),
+    pairs: [(pre [T][B], post [T][B]) ...]}] - one (pre, post) pair per synapse sharing the weight (one for the linear
+    connections, one per output position for a convolution kernel element)"""
+    n_in, n_out, d = case.get("n_in"), case.get("n_out"), case.get("delays")
     out = []
     if case["conn"] == "dense":
         for o in range(n_out):
             for i in range(n_in):
-                out.append((o, i, o * n_in + i, d[o][i] if d is not None else 0))
+                out.append({"label": [o, i], "idx": o * n_in + i, "k": d[o][i] if d is not None else 0,
+                            "pairs": [(column(case["pre"], i), column(case["post"], o))]})
     elif case["conn"] == "direct":
         for i in range(n_in):
-            out.append((i, i, i, d[i] if d is not None else 0))
+            out.append({"label": [i, i], "idx": i, "k": d[i] if d is not None else 0,
+                        "pairs": [(column(case["pre"], i), column(case["post"], i))]})
     elif case["conn"] == "lateral":
         # the diagonal of a lateral connection is masked (no synapse from a neuron onto itself): not judged
         for o in range(n_out):
             for i in range(n_in):
                 if o != i:
-                    out.append((o, i, o * n_in + i, d[o][i] if d is not None else 0))
+                    out.append({"label": [o, i], "idx": o * n_in + i, "k": d[o][i] if d is not None else 0,
+                                "pairs": [(column(case["pre"], i), column(case["post"], o))]})
+    elif case["conn"] == "conv":
+        # the synapse of a convolutional connection receives the unfolded input (N = C*kH*kW rows, L output positions):
+        # kernel element (f, n) is shared by the L synapses (n, l) -> (f, l).  The unfolded presynaptic trains are the
+        # ones the implementation's synapse observed (impl["synpre"]); unfolding itself is C05's subject.
+        if impl is None or not impl.get("ok"):
+            return []
+        sp = impl["synpre"]                       # [T][B][N][L]
+        N, L = len(sp[0][0]), len(sp[0][0][0])
+        Fn = case["conv"]["filters"]
+        for f in range(Fn):
+            for n in range(N):
+                pairs = []
+                for l in range(L):
+                    pre = [[sb[n][l] for sb in st] for st in sp]
+                    post = column(case["post"], f * L + l)
+                    pairs.append((pre, post))
+                out.append({"label": [f, n], "idx": f * N + n, "k": d[f][n] if d is not None else 0, "pairs": pairs})
     return out
 
 
@@ -115,6 +150,60 @@ def gen_random(rng: random.Random):
     case["signal"] = mk_signal(rng, case, T, B)
     case["scale"] = rng.choice([1.0, 1.0, 0.5, -2.0, 1.7]) if case["signal"] is not None else 1.0
     if case["signal"] is not None and isinstance(case["signal"][0], list) and rng.random() < 0.7:
+        case["reduction"] = rng.choice([None, "sum"])
+    return case
+
+
+def gen_malformed(rng: random.Random):
+    """configurations the constructors must refuse (ValueError): zero trace amplitude, non-positive time constant,
+    slow <= fast triplet time constants, zero pair rate of a triplet trainer"""
+    c = gen_random(rng)
+    while c["conn"] != "dense":
+        c = gen_random(rng)
+    hp, tr = c["hp"], c["trainer"]
+    kind = rng.choice(["lr0", "tc0", "tcneg", "slow", "beta0"])
+    if kind == "lr0":
+        hp[rng.choice(["lr_post", "lr_pre"])] = 0.0          # accepted only by StableSTDP (unit trace amplitude)
+    elif kind == "tc0":
+        hp[rng.choice(["tc_post", "tc_pre"])] = 0.0
+    elif kind == "tcneg":
+        hp[rng.choice(["tc_post", "tc_pre", "tc_elig"])] = -1.0
+    elif kind == "slow":
+        hp["tc_post_slow"] = hp["tc_post"] if rng.random() < 0.5 else hp["tc_post"] / 2
+    else:
+        hp[rng.choice(["lr_post_triplet", "lr_pre_triplet"])] = 0.0   # refused by TripletSTDP only (|beta/alpha| amplitude)
+    c["malformed"] = kind
+    return c
+
+
+def gen_conv(rng: random.Random):
+    """a small convolutional cell (weights shared over the output positions); linear batch reductions only, because the
+    per-synapse model terms are added up over the positions before the comparison"""
+    tr = rng.choice(TRAINERS)
+    sp, sq = rng.choice(SIGNS)
+    H, W = rng.choice([(2, 2), (3, 2), (3, 3)])
+    C, Fn = rng.randint(1, 2), rng.randint(1, 2)
+    kernel = rng.choice([[1, 1], [2, 2], [2, 1], [1, 2]])
+    padding = rng.choice([[0, 0], [0, 0], [1, 0]])
+    stride = rng.choice([[1, 1], [1, 1], [2, 1]])
+    oh = (H + 2 * padding[0] - (kernel[0] - 1) - 1) // stride[0] + 1
+    ow = (W + 2 * padding[1] - (kernel[1] - 1) - 1) // stride[1] + 1
+    B, T = rng.randint(1, 2), rng.randint(2, 6)
+    kmax = rng.choice([None, None, 1, 2])
+    N = C * kernel[0] * kernel[1]
+    case = {"trainer": tr, "mode": rng.choice(MODES), "hp": default_hp(sp, sq, rng), "dt": rng.choice([1.0, 0.5]),
+            "conn": "conv", "conv": {"height": H, "width": W, "channels": C, "filters": Fn, "kernel": kernel,
+                                     "stride": stride, "padding": padding, "dilation": [1, 1]},
+            "B": B, "kmax": kmax, "delays": None, "delayed": bool(kmax is not None and rng.random() < 0.5),
+            "reduction": rng.choice([None, "sum", "mean"])}
+    if kmax is not None:
+        case["delays"] = [[rng.randint(0, kmax) for _ in range(N)] for _ in range(Fn)]
+    p = rng.choice([0.3, 0.6])
+    case["pre"] = [[[int(rng.random() < p) for _ in range(C * H * W)] for _ in range(B)] for _ in range(T)]
+    case["post"] = [[[int(rng.random() < p) for _ in range(Fn * oh * ow)] for _ in range(B)] for _ in range(T)]
+    case["signal"] = mk_signal(rng, case, T, B)
+    case["scale"] = rng.choice([1.0, 0.5, -2.0]) if case["signal"] is not None else 1.0
+    if case["signal"] is not None and isinstance(case["signal"][0], list):
         case["reduction"] = rng.choice([None, "sum"])
     return case
 
@@ -169,11 +258,11 @@ def q_signal(case, t):
     return f"(SigScalar FN {q_float(s)} {q_float(case.get('scale', 1.0))})"
 
 
-def q_case(case, o, i, k):
-    T, B = len(case["pre"]), case["B"]
+def q_case(case, k, pre, post):
+    T, B = len(pre), case["B"]
     steps = []
     for t in range(T):
-        pq = F.coq_list([f"({F.coq_bool(case['pre'][t][b][i])}, {F.coq_bool(case['post'][t][b][o])})" for b in range(B)])
+        pq = F.coq_list([f"({F.coq_bool(pre[t][b])}, {F.coq_bool(post[t][b])})" for b in range(B)])
         steps.append(f"({pq}, {q_signal(case, t)})")
     return f"run_case {q_config(case)} {k}%nat {B}%nat {F.coq_list(steps)}"
 
@@ -183,15 +272,15 @@ def red_fn(name):
     return {"sum": sum, "mean": lambda l: sum(l) / len(l), "amax": max}[name]
 
 
-def pair_terms(case, o, i, k, b):
+def pair_terms(case, k, pre, post):
     """per step t, for sample b: (A, D) with unit learning rates:
        A(t) = [post spike at t] * sum over presynaptic spikes tq (arrival tq + k <= t) of exp(-(t - (tq+k)) dt / tau_pre)
               (only the most recent such partner in nearest mode)  [* triplet factor]
        D(t) = [presynaptic spike arriving at t] * sum over post spikes tp <= t of exp(-(t - tp) dt / tau_post)   [* factor]"""
-    hp, dt, T = case["hp"], case["dt"], len(case["pre"])
+    hp, dt, T = case["hp"], case["dt"], len(pre)
     nearest = case["mode"] == "nearest"
-    pre_arr = [tq + k for tq in range(T) if case["pre"][tq][b][i] and tq + k < T]     # arrival steps
-    post_t = [tp for tp in range(T) if case["post"][tp][b][o]]
+    pre_arr = [tq + k for tq in range(T) if pre[tq] and tq + k < T]     # arrival steps
+    post_t = [tp for tp in range(T) if post[tp]]
 
     def partner_sum(times, t, tau, upto=None):
         upto = t if upto is None else upto
@@ -218,12 +307,20 @@ def pair_terms(case, o, i, k, b):
     return A, D
 
 
-def oracle_synapse(case, o, i, k):
-    """expected total weight change of synapse (o, i), or None when the oracle has no opinion"""
+def oracle_entry(case, ent):
+    """expected total weight change of a weight entry, or None when the oracle has no opinion"""
     hp, dt, T, B = case["hp"], case["dt"], len(case["pre"]), case["B"]
     red = eff_reduction(case)
     rf = red_fn(red)
-    AD = [pair_terms(case, o, i, k, b) for b in range(B)]
+    k = ent["k"]
+    AD = []
+    for b in range(B):
+        A, D = [0.0] * T, [0.0] * T
+        for (pre, post) in ent["pairs"]:          # synapses sharing the weight add up (before the batch reduction)
+            a, d = pair_terms(case, k, [st[b] for st in pre], [st[b] for st in post])
+            A = [x + y for x, y in zip(A, a)]
+            D = [x + y for x, y in zip(D, d)]
+        AD.append((A, D))
     sig, scale = case.get("signal"), abs(case.get("scale", 1.0))
     if case["trainer"] == "MSTDPET":
         # eligibility filter z(t) = z(t-dt) exp(-dt/tau_z) + c(t)/tau_z applied to each contribution stream
@@ -264,11 +361,33 @@ def pick(vals, idx):
     return F.dec_float(vals[idx])
 
 
-def compare_case(case, impl, models, syn):
-    """-> (mismatch detail | None, oracle failure detail | None)"""
+def add_opt(a, b):
+    if a is None:
+        return b
+    if b is None:
+        return a
+    return a + b
+
+
+def model_entry(ms, T):
+    """combine the model outputs of the synapses sharing one weight: accumulator parts add up (None = absent)"""
+    accs = [[None, None] for _ in range(T)]
+    upd = None
+    for m in ms:
+        for t in range(T):
+            for j in (0, 1):
+                accs[t][j] = add_opt(accs[t][j], dec_opt(m[1][t][j]))
+        upd = add_opt(upd, dec_opt(m[3]))
+    return accs, upd
+
+
+def compare_case(case, impl, ents, models):
+    """ents: weight entries, models: per entry the list of model results (one per synapse sharing the weight)
+    -> (mismatch detail | None, oracle failure detail | None)"""
     if not impl.get("ok"):
         # the model says whether the configuration is rejected
-        bad = [m for m in models if not isinstance(m, Exception) and m[0] == 1]
+        flat = [m for ms in models for m in ms]
+        bad = [m for m in flat if not isinstance(m, Exception) and m[0] == 1]
         if bad and impl.get("err") == bad[0][1]:
             return None, None
         d = {"impl_error": impl.get("msg"), "trace": impl.get("trace", "")[-600:]}
@@ -278,42 +397,45 @@ def compare_case(case, impl, models, syn):
     for x in impl["wshape"]:
         nw *= x
     mis = None
-    for (o, i, idx, k), m in zip(syn, models):
-        if isinstance(m, Exception):
-            mis = {"model_error": str(m)[:800]}
+    for ent, ms in zip(ents, models):
+        err = next((m for m in ms if isinstance(m, Exception)), None)
+        if err is not None:
+            mis = {"model_error": str(err)[:800]}
             break
-        if m[0] != 0:
-            mis = {"model_rejects": m, "impl": "ran"}
+        rej = next((m for m in ms if m[0] != 0), None)
+        if rej is not None:
+            mis = {"model_rejects": rej, "impl": "ran"}
             break
-        accs, outs, upd = m[1], m[2], m[3]
+        accs, upd = model_entry(ms, T)
+        idx = ent["idx"]
         for t in range(T):
             for part, j in (("pos", 0), ("neg", 1)):
-                mv = dec_opt(accs[t][j])
-                iv = pick(impl["steps"][t][part], idx)
-                if iv == "shape" or (impl["steps"][t][part] is not None and len(impl["steps"][t][part]) != nw):
-                    mis = {"synapse": [o, i], "step": t, "part": part, "detail": "part is not weight-shaped",
-                           "size": len(impl["steps"][t][part]), "weight_size": nw}
+                mv = accs[t][j]
+                raw = impl["steps"][t][part]
+                iv = pick(raw, idx)
+                if iv == "shape" or (raw is not None and len(raw) != nw):
+                    mis = {"weight": ent["label"], "step": t, "part": part, "detail": "part is not weight-shaped",
+                           "size": len(raw), "weight_size": nw}
                 elif (mv is None) != (iv is None) or (mv is not None and not F.close(mv, iv)):
-                    mis = {"synapse": [o, i], "step": t, "part": part, "model": mv, "impl": iv}
+                    mis = {"weight": ent["label"], "step": t, "part": part, "model": mv, "impl": iv}
                 if mis:
                     break
             if mis:
                 break
         if mis:
             break
-        mu = dec_opt(upd)
         iu = pick(impl["dw"], idx)
-        if iu == "shape" or not F.close(mu if mu is not None else 0.0, iu):
-            mis = {"synapse": [o, i], "step": "update", "model": mu, "impl": iu}
+        if iu == "shape" or not F.close(upd if upd is not None else 0.0, iu):
+            mis = {"weight": ent["label"], "step": "update", "model": upd, "impl": iu}
             break
     of = None
-    for (o, i, idx, k) in syn:
-        exp = oracle_synapse(case, o, i, k)
+    for ent in ents:
+        exp = oracle_entry(case, ent)
         if exp is None:
             continue
-        got = pick(impl["w_total"], idx)
+        got = pick(impl["w_total"], ent["idx"])
         if got == "shape" or not F.close(exp, got, rel=1e-9, ab=1e-11):
-            of = {"synapse": [o, i], "delay_steps": k, "expected_pair_sum": exp, "observed_weight_change": got}
+            of = {"weight": ent["label"], "delay_steps": ent["k"], "expected_pair_sum": exp, "observed_weight_change": got}
             break
     return mis, of
 
@@ -338,14 +460,19 @@ def run_impl_parallel(cases, jobs=8):
 def evaluate(cases):
     impl = run_impl_parallel(cases)
     terms, spans = [], []
-    for c in cases:
-        syn = synapses(c)
-        spans.append((len(terms), syn))
-        terms += [q_case(c, o, i, k) for (o, i, idx, k) in syn]
+    for c, im in zip(cases, impl):
+        ents = entries(c, im)
+        if not ents and c["conn"] != "conv":
+            ents = entries(c)
+        sp = []
+        for e in ents:
+            sp.append((len(terms), len(e["pairs"])))
+            terms += [q_case(c, e["k"], pre, post) for (pre, post) in e["pairs"]]
+        spans.append((ents, sp))
     model = F.eval_terms(ID, HEADER, terms, shard=max(40, min(250, len(terms) // 48 + 1)))
     mismatches, oracle_fail = [], []
-    for c, im, (a, syn) in zip(cases, impl, spans):
-        mis, of = compare_case(c, im, model[a:a + len(syn)], syn)
+    for c, im, (ents, sp) in zip(cases, impl, spans):
+        mis, of = compare_case(c, im, ents, [model[a:a + n] for (a, n) in sp])
         if mis is not None:
             mismatches.append({"case": c, "detail": mis})
         if of is not None:
@@ -370,6 +497,8 @@ def run(ctx):
     quick = ctx["tier"] == "quick"
     cases = load_corpus()
     cases += [gen_random(rng) for _ in range(260 if quick else 4000)]
+    cases += [gen_conv(rng) for _ in range(24 if quick else 400)]
+    cases += [gen_malformed(rng) for _ in range(30 if quick else 300)]
     ex_len = 2 if quick else 5
     ex = exhaustive_1x1(ex_len)
     if quick:
@@ -391,7 +520,8 @@ def run(ctx):
         "distinct_nontrivial": len({json.dumps(c, sort_keys=True) for c in cases if nontrivial(c)}),
         "rule": ("seeded random cells (6 trainers x 4 sign modes x 2 trace modes, dense/direct/lateral connections up to 3x3, "
                  "batch <= 3, 1-9 steps, delays 0-3 steps in both trainer modes or no delay, sum/mean/amax reductions, scalar "
-                 "and per-sample signals) + EXHAUSTIVE pre/post histories of length <= %d on 1x1 cells for every trainer x "
+                 "and per-sample signals) + small convolutional cells (kernels shared over <= 9 output positions, stride / "
+                 "padding, delays, linear reductions) + EXHAUSTIVE pre/post histories of length <= %d on 1x1 cells for every trainer x "
                  "sign mode x trace mode%s; non-trivial = >= 2 steps with at least one pre and one post spike; distinct by "
                  "full case text" % (ex_len, " (+ all length-3 histories for STDP, length <= 2 with a delay)" if quick
                                      else " (+ length <= 4 with a delay in both trainer modes)")),
@@ -407,6 +537,7 @@ def run(ctx):
         "reduction_distribution": dict(Counter(eff_reduction(c) for c in cases)),
         "signal_distribution": dict(Counter("none" if c.get("signal") is None else ("per-sample" if isinstance(c["signal"][0], list) else "scalar") for c in cases)),
         "impl_errors": sum(1 for r in impl if not r.get("ok")),
+        "malformed_stream": dict(Counter("%s/%s" % (c.get("malformed"), "accepted" if r.get("ok") else "refused") for c, r in zip(cases, impl) if c.get("malformed"))),
     }
 
 
